@@ -96,8 +96,10 @@ def inputs():
     np.random.seed(17)
     ey = dv.GET_EYE(rx, sps_resamp=32)
     np.random.set_state(st)
+    long = protect(optical_signal(np.full(2 ** 17, 0.02 + 0.01j)))
+    tlong = protect(np.arange(2 ** 17) * gv.dt)
     syncrx = protect(np.roll(np.tile(np.kron(bits.data, np.ones(sps)), 3), 7 * sps + 3).astype(float))
-    return dict(bits=bits, x=x, t=t, o1=o1, o2=o2, mod=mod, rx=rx, ppmbits=ppmbits, ppmwave=ppmwave, slots=slots, eye=ey, syncrx=syncrx)
+    return dict(bits=bits, x=x, t=t, o1=o1, o2=o2, mod=mod, rx=rx, ppmbits=ppmbits, ppmwave=ppmwave, slots=slots, eye=ey, syncrx=syncrx, long=long, tlong=tlong)
 
 
 def funcs():
@@ -139,13 +141,17 @@ def funcs():
         "ook.BER_counter": (lambda I: (I["bits"], I["slots"]), lambda a: ook.BER_analizer("counter", Tx=a[0], Rx=a[1]), 1),
         "ppm.BER_estimator": (lambda I: (I["eye"],), lambda a: ppm.BER_analizer("estimator", eye_obj=a[0], M=4), 1),
         "ook.theory_BER": (lambda I: (np.array([1.0, 2.0]),), lambda a: ook.theory_BER(a[0], 0.1, 0.2), 1),
+        # long records (2^17 samples): the random devices must follow numpy's global seed whatever the record length
+        "PD-long": (lambda I: (I["long"],), lambda a: dv.PD(a[0], 1e9), 1),
+        "EDFA-long": (lambda I: (I["long"],), lambda a: dv.EDFA(a[0], 10, 5), 1),
+        "LASER-long": (lambda I: (I["tlong"],), lambda a: dv.LASER(a[0], 0.0, lw=1e5), 1),
         "FBG": (lambda I: (I["o1"],), lambda a: dv.FBG(a[0], fc=gv.f0, vdneff=1e-4, kL=2.0, print_params=False, retH=True), 1),
         "lab.SYNC": (lambda I: (I["syncrx"], I["bits"]), lambda a: __import__("opticomlib.lab", fromlist=["SYNC"]).SYNC(a[0], a[1].data, gv.sps), 1),
         "ook.DSP": (lambda I: (I["rx"],), lambda a: ook.DSP(a[0]), 1),
         "utils.mix": (lambda I: (I["rx"].signal,), lambda a: [ut.db(np.abs(a[0]) + 1), ut.Q(a[0]), ut.shortest_int(a[0], 50), ut.dec2bin(5, 4), ut.str2array("1,2;3,4")], 2),
         "utils.noise_variances": (lambda I: (-20.0,), lambda a: ut.noise_variances(a[0], "ppm", 4, 10, True, 1550e-9, 20, 5, 50e9), 1),
     }
-    RANDOM = {"LASER-noisy", "EDFA", "EDFA-bw", "PD-all", "HDD", "GET_EYE", "ook.DSP"}
+    RANDOM = {"LASER-noisy", "EDFA", "EDFA-bw", "PD-all", "HDD", "GET_EYE", "ook.DSP", "PD-long", "EDFA-long", "LASER-long"}
     return F, RANDOM
 
 
